@@ -14,6 +14,7 @@ import (
 	"fmt"
 	"io"
 	"log"
+	"math"
 	"net/http/httptest"
 	"os"
 	"path/filepath"
@@ -131,7 +132,7 @@ func scenarioC13(c *hlib.RunCtx) *hlib.Violation {
 	// configuration
 	ucfg := &telemetry.UploadConfig{
 		GOOS: []string{"linux", "darwin", "windows"}, GOARCH: []string{"amd64", "arm64"},
-		GoVersion: []string{"go1.21.0", "go1.21.5", "go1.22.1", "go1.23.0", "go1.21rc2", "go1.22beta1"},
+		GoVersion: []string{"go1.21.0", "go1.21.5", "go1.22.1", "go1.23.0", "go1.21rc2", "go1.22beta1", "go1.9.2", "go1.100.0", "go1.22", "go2.0.1"},
 		Programs: []*telemetry.ProgramConfig{
 			{Name: "example.com/gopls", Versions: []string{"v0.14.0", "v0.15.0", "v0.15.1", "v0.15.1+incompatible", "v0.15.1+build.7"}, // the last three are equal as semantic versions
 				Counters: []telemetry.CounterConfig{{Name: "editor:{vscode,vim,emacs}", Rate: 1}, {Name: "plain", Rate: 1}, {Name: "signal:{os:kill,os:term,none}", Rate: 1}}}, // buckets that contain a colon themselves
@@ -147,13 +148,37 @@ func scenarioC13(c *hlib.RunCtx) *hlib.Violation {
 	// stored reports per day
 	day0 := refcal.DaysFromCivil(2024, 1, 1) + t.Draw(700)
 	ndays := 1 + t.Draw(4)
+	if t.Bool(1, 5) {
+		ndays = 7 + t.Draw(2) // the week-long range production charts
+	}
 	stored := map[string][]*rep{} // date -> reports
+	formats := map[string]int{}
+	formatOf := func(name string) int {
+		if f, ok := formats[name]; ok {
+			return f
+		}
+		formats[name] = t.Biased(4, 3, 4)
+		return formats[name]
+	}
 	put := func(name string, js []byte) {
 		w, err := api.Upload.Object(name).NewWriter(ctx)
 		if err != nil {
 			panic(err)
 		}
-		w.Write(append(js, '\n'))
+		// as the server writes it (one compact line), or as a copy of another
+		// bucket may look: no final newline, indented, CRLF
+		switch formatOf(name) {
+		case 1:
+			w.Write(js)
+		case 2:
+			var buf bytes.Buffer
+			json.Indent(&buf, js, "", "  ")
+			w.Write(append(buf.Bytes(), '\n'))
+		case 3:
+			w.Write(append(js, '\r', '\n'))
+		default:
+			w.Write(append(js, '\n'))
+		}
 		w.Close()
 	}
 	var finals [][2]string
@@ -171,12 +196,30 @@ func scenarioC13(c *hlib.RunCtx) *hlib.Violation {
 			if t.Bool(1, 3) {
 				x = float64(1+t.Draw(1<<20)) / float64(1<<21)
 			}
+			switch t.Biased(5, 5, 6) {
+			case 1: // a full mantissa
+				x = (float64(1+t.Draw(1<<30)) + 0.5) / float64(1<<31) * (1 - 1.0/float64(uint64(1)<<52))
+			case 2: // two IDs one unit in the last place apart
+				x = math.Nextafter(0.3, 1)
+				if used[x] {
+					x = 0.3
+				}
+			case 3: // the server accepts any non-zero X
+				x = 1.5 + float64(t.Draw(4))
+			case 4:
+				x = -0.25 - float64(t.Draw(4))
+			}
 			if used[x] {
 				continue
 			}
 			used[x] = true
 			r := &rep{Week: refcal.Date(day0 + d - t.Draw(3)), X: x, Config: "v0.1.0"}
-			np := 1 + t.Draw(2)
+			np := t.Biased(4, 1, 12) // mostly 1..3 programs, sometimes none (every build was filtered)
+			if np == 0 {
+				np = 1 + t.Draw(3)
+			} else {
+				np = 0
+			}
 			for k := 0; k < np; k++ {
 				pc := ucfg.Programs[t.Draw(len(ucfg.Programs))]
 				p := &prog{Program: pc.Name, Version: pc.Versions[t.Draw(len(pc.Versions))], GoVersion: ucfg.GoVersion[t.Draw(len(ucfg.GoVersion))],
@@ -188,10 +231,31 @@ func scenarioC13(c *hlib.RunCtx) *hlib.Violation {
 						}
 					}
 				}
+				// Reports stored under an older configuration: an item the current one
+				// does not list. Charts count configured buckets only.
+				if t.Bool(1, 5) {
+					switch t.Draw(7) {
+					case 0:
+						p.Program = "example.com/unlisted"
+					case 1:
+						p.Version = "v9.9.9"
+					case 2:
+						p.GoVersion = []string{"go1.21.3", "go1.20.1", "go1.21", "devel +abc"}[t.Draw(4)] // go1.21.3: same language version as a listed one, not listed itself
+					case 3:
+						p.GOOS = "plan9"
+					case 4:
+						p.GOARCH = "mips"
+					case 5:
+						p.Counters["editor:notepad"] = 3
+					case 6:
+						p.Counters["unlisted:x"] = 3
+					}
+					s.Probe("report-item-outside-config")
+				}
 				r.Programs = append(r.Programs, p)
 			}
 			// size classes: tiny .. just under the 100 KiB upload limit (merged lines above 64 KiB)
-			if t.Bool(1, 6) {
+			if len(r.Programs) > 0 && t.Bool(1, 6) {
 				frames := strings.Repeat("example.com/very/long/import/path.Function:+12,+0x1234\n", 1250+t.Draw(500))
 				r.Programs[0].Stacks["crash/crash\n"+frames] = 1
 			}
@@ -200,7 +264,7 @@ func scenarioC13(c *hlib.RunCtx) *hlib.Violation {
 			// The report may have been sent before with more in it (the same week
 			// and X name the same object): the day was merged then, and is merged
 			// again now that the object is smaller.
-			if t.Bool(1, 8) {
+			if t.Bool(1, 8) && len(r.Programs) > 0 {
 				big := *r
 				bp := *r.Programs[0]
 				bp.Stacks = map[string]int64{"crash/crash\n" + strings.Repeat("example.com/earlier/version.F:+1,+0x10\n", 1+t.Draw(300)): 1}
@@ -317,6 +381,13 @@ func scenarioC13(c *hlib.RunCtx) *hlib.Violation {
 		var first []byte
 		for attempt := 0; attempt < 3 && viol == nil; attempt++ {
 			os.Remove(filepath.Join(dir, "charts", obj))
+			if attempt > 0 && !missing {
+				// the same reports merged again in another listing order
+				for dd := a; dd <= b; dd++ {
+					rec := httptest.NewRecorder()
+					handleMerge(api).ServeHTTP(rec, httptest.NewRequest("GET", "/merge/?date="+refcal.Date(day0+dd), nil))
+				}
+			}
 			rec := httptest.NewRecorder()
 			handleChart(cfg, api).ServeHTTP(rec, httptest.NewRequest("GET", url, nil))
 			if missing {
@@ -351,7 +422,22 @@ func scenarioC13(c *hlib.RunCtx) *hlib.Violation {
 	return viol
 }
 
-func tconfigExpand(name string) []string { return tconfig.Expand(name) }
+// tconfigExpand expands the documented chart:{bucket,...} syntax, written here
+// from the documentation so that the expectation does not go through the
+// implementation's own expander.
+func tconfigExpand(name string) []string {
+	open := strings.Index(name, ":{")
+	if open < 0 || !strings.HasSuffix(name, "}") {
+		return []string{name}
+	}
+	var out []string
+	for _, b := range strings.Split(name[open+2:len(name)-1], ",") {
+		out = append(out, name[:open+1]+b)
+	}
+	return out
+}
+
+var _ = tconfig.Expand
 
 func sameRep(a, b *rep) bool {
 	norm := func(r *rep) string {
